@@ -5,6 +5,8 @@ package main
 import (
 	"encoding/json"
 	"fmt"
+	"github.com/trustbloc/sidetree-go/pkg/hashing"
+	"hash/fnv"
 	"strings"
 	"sync"
 
@@ -50,6 +52,29 @@ type ROp struct {
 func (o *ROp) key() string {
 	b, _ := json.Marshal(o)
 	return string(b)
+}
+
+// way picks one of n concrete shapes of a failure class for this operation (stable per operation, varied
+// across the operations of a run).
+func (o *ROp) way(n int) int {
+	h := fnv.New32a()
+	h.Write([]byte(o.key()))
+
+	return int(h.Sum32() % uint32(n))
+}
+
+// respell returns another base64url spelling of the same bytes and the same length (the unused low bits of the
+// last character set); a string without unused bits is returned as it is.
+func respell(s string) string {
+	const alphabet = "ABCDEFGHIJKLMNOPQRSTUVWXYZabcdefghijklmnopqrstuvwxyz0123456789-_"
+
+	if len(s)%4 == 0 || len(s) == 0 {
+		return s
+	}
+
+	i := strings.IndexByte(alphabet, s[len(s)-1])
+
+	return s[:len(s)-1] + string(alphabet[i|1])
 }
 
 // all numeric limits pairwise distinct, so that a confusion between two limits cannot hide
@@ -163,7 +188,10 @@ func (c *Concretizer) patchesFor(d Delta) []interface{} {
 		return []interface{}{map[string]interface{}{"action": "replace",
 			"document": map[string]interface{}{"publicKeys": []interface{}{c.docKeyJSON(d.I)}}}}
 	case "addmem":
-		return []interface{}{jsonPatch(map[string]interface{}{"op": "add", "path": fmt.Sprintf("/m%d", d.I), "value": d.I})}
+		// (the value holds characters that encoding/json escapes and the canonical form does not, and numbers
+		// that only the ECMAScript rules format correctly)
+		return []interface{}{jsonPatch(map[string]interface{}{"op": "add", "path": fmt.Sprintf("/m%d", d.I),
+			"value": memValue(d.I)})}
 	case "remmem":
 		return []interface{}{jsonPatch(map[string]interface{}{"op": "remove", "path": fmt.Sprintf("/m%d", d.I)})}
 	case "addkey_remmem":
@@ -171,6 +199,11 @@ func (c *Concretizer) patchesFor(d Delta) []interface{} {
 	}
 
 	panic("harness: unknown delta kind " + d.K)
+}
+
+// memValue is the value of document member m<i>.
+func memValue(i int) interface{} {
+	return map[string]interface{}{"s": fmt.Sprintf("v%d?a=1&b=<2>\u2028\u00e9", i), "n": []interface{}{float64(i), 1e21, 9007199254740993.0, 1e-7}}
 }
 
 func anchorOrigin(ao int) interface{} {
@@ -228,12 +261,24 @@ func jwkMap(j interface{}) map[string]interface{} {
 }
 
 // compactJWS builds header.payload.signature with the harness's own signer.
+// compactJWS signs once per (headers, payload, key) and process: the tampered instances of an operation are
+// then derived from the very JWS that the untampered operation carries (a verifier that remembers what it
+// has verified must not be led to accept them).
 func compactJWS(headers map[string]interface{}, payload []byte, signer *Key) string {
 	hb, _ := json.Marshal(headers)
 	input := b64(hb) + "." + b64(payload)
+	k := signer.KT + "/" + signer.Name + "/" + input
 
-	return input + "." + b64(signer.Sign([]byte(input)))
+	if v, ok := jwsCache.Load(k); ok {
+		return v.(string)
+	}
+
+	v, _ := jwsCache.LoadOrStore(k, input+"."+b64(signer.Sign([]byte(input))))
+
+	return v.(string)
 }
+
+var jwsCache sync.Map
 
 // Build concretizes a resolved abstract operation (variant 0 of its tamper class).
 func (c *Concretizer) Build(o *ROp) *operation.AnchoredOperation {
@@ -374,6 +419,40 @@ func (c *Concretizer) buildRequest(o *ROp, variant int) ([]byte, int) {
 		}
 
 		deltaHash = refModelHash(dv, alg)
+
+		// a delta hash that does not bind the delta comes in several spellings (one per operation, by rotation):
+		// the hash of another delta, the right hash in a non-canonical base64 spelling, a multihash of the
+		// right algorithm that carries no digest / only the first digest byte
+		if !o.Dhash && delta != nil {
+			right := refHash(alg, refJCSSimple(delta))
+
+			switch o.way(5) {
+			case 1:
+				if r := respell(refModelHash(delta, alg)); r != refModelHash(delta, alg) {
+					deltaHash = r
+				}
+			case 2:
+				deltaHash = b64(refMultihash(alg, nil))
+			case 3:
+				deltaHash = b64(refMultihash(alg, right[:1]))
+			case 4:
+				// the hash of a delta that differs from the one carried in a single large whole number
+				if o.Dv == "ok" {
+					withBig := func(n float64) map[string]interface{} {
+						d := deepCopyGeneric(generic(delta)).(map[string]interface{})
+						d["patches"] = append(d["patches"].([]interface{}), generic(jsonPatch(map[string]interface{}{"op": "add", "path": "/big", "value": n})))
+
+						return d
+					}
+
+					// (signed the way a client of this library signs it: with the library's own model hash)
+					if h, err := hashing.CalculateModelMultihash(withBig(1e19), uint(alg)); err == nil {
+						deltaHash = h
+						delta = withBig(6e20)
+					}
+				}
+			}
+		}
 	}
 
 	if o.Wf == "dh_mh" {
@@ -542,6 +621,21 @@ func (c *Concretizer) buildRequest(o *ROp, variant int) ([]byte, int) {
 	reveal := refReveal(jwkMap(jwk), alg)
 	if o.Reveal == "other" {
 		reveal = refReveal(jwkMap(other.JWK), alg)
+
+		// a reveal value the signing key does not hash to, in several shapes (by rotation): another key's
+		// reveal value, the right one in a non-canonical base64 spelling, a multihash without / with one digest byte
+		right := refHash(alg, refJCSSimple(jwkMap(jwk)))
+
+		switch o.way(4) {
+		case 1:
+			if r := respell(refReveal(jwkMap(jwk), alg)); r != refReveal(jwkMap(jwk), alg) {
+				reveal = r
+			}
+		case 2:
+			reveal = b64(refMultihash(alg, nil))
+		case 3:
+			reveal = b64(refMultihash(alg, right[:1]))
+		}
 	}
 
 	if o.Wf == "reveal_mh" {
